@@ -82,6 +82,20 @@ def registrations(bundle):
     acts.append(lambda: Resolver("Query.whoami", schema_name=name)(whoami))
     return acts
 
+_PLUGIN_DIRS = []
+SHARED_MODULES = {}      # plugin module name -> the ONE list object passed as `modules=` by every cook of this process
+
+def ensure_plugin():
+    """an importable, empty user module (no registrations) on sys.path"""
+    import tempfile
+    d = tempfile.mkdtemp(prefix="c17_plugin_")
+    open(os.path.join(d, "c17_shared_plugin.py"), "w").write("# nothing to register\n")
+    sys.path.insert(0, d)
+    import atexit, shutil
+    atexit.register(shutil.rmtree, d, True)         # (the main check leaves through os._exit: it removes the directory itself)
+    _PLUGIN_DIRS.append(d)
+    return "c17_shared_plugin", d
+
 class CookFailed:
     def __init__(self, e): self.e = e
 
@@ -89,6 +103,9 @@ async def cook(bundle):
     from tartiflette import create_engine
     try:
         kw = {"error_coercer": stamping_coercer(bundle["tag"])} if bundle.get("stamping") else {}
+        if bundle.get("plugin"):
+            # a user module list shared by every cook of the process (a settings-level constant): each cook reads it, none owns it
+            kw["modules"] = SHARED_MODULES.setdefault(bundle["plugin"], [bundle["plugin"]])
         return await create_engine(print_sdl(bundle["model"]), schema_name=bundle["name"], **kw)
     except Exception as e:
         return CookFailed(e)
@@ -166,7 +183,10 @@ def alone(bundle):
     if p.returncode != 0: return [f"subprocess failed: {p.stderr[-400:]}"]
     return json.loads(p.stdout.strip().split("\n")[-1])
 
+PLUGIN = [None]
+
 def run_alone():
+    PLUGIN[0], _d = ensure_plugin()
     bundle = json.load(sys.stdin)
     bundle["probes"] = [tuple(x) for x in bundle["probes"]]
     async def go():
@@ -177,6 +197,7 @@ def run_alone():
 
 async def explore(tier, seed):
     rng = random.Random(seed * 3 + 17)
+    PLUGIN[0], plugin_dir = ensure_plugin()
     stats = {"evaluations": 0, "nontrivial": set(), "problems": [], "samples": [], "configs": 0}
     nconf = fw.scale(12 if tier == "quick" else 120)
     t0 = time.time()
@@ -190,6 +211,8 @@ async def explore(tier, seed):
             sgenv = bundles[0]["env"]
             bundles[1]["env"] = json.loads(json.dumps(sgenv).replace("B0/", "B1/"))
         for i, bd in enumerate(bundles): bd["name"] = f"c{seed}_{ci}_{next(uid)}_{i}"
+        if rng.random() < 0.5:
+            for bd in bundles: bd["plugin"] = PLUGIN[0]
         shared_pair = bundles[1]["model"] is bundles[0]["model"]
         if shared_pair and rng.random() < 0.6:
             bundles[0]["counting_scalar"] = bundles[1]["counting_scalar"] = True
@@ -265,6 +288,8 @@ if __name__ == "__main__":
     v = fw.Verdict("C17", tier, seed)
     b = fw.build("C17", thorough=(tier == "thorough"))
     stats = er.run(explore(tier, seed))
+    import shutil
+    for d_ in _PLUGIN_DIRS: shutil.rmtree(d_, ignore_errors=True)
     for p in stats["problems"][:3]:
         v.violation({"property": "C17", "seed": seed, **p, "undischarged_theorems": b["failing"]})
     if not stats["problems"] and not b["sound"]:
